@@ -69,15 +69,19 @@ def run(ctx):
     ok_iter = (isinstance(it, ast.Call) and norm(it.func) == "sorted" and len(it.args) == 1 and
                norm(it.args[0]) == "%s['data'].items()" % tok and
                [k.arg for k in it.keywords] == ["key"] and norm(it.keywords[0].value) == "_attr_key")
-    r.check("R18.2", ok_iter, "iterates-sorted-items", "%s:%d" % (REL, lp.lineno),
+    r.idiom("R18.2", ok_iter, "iterates-sorted-items", "%s:%d" % (REL, lp.lineno),
             "the rebuild loop does not iterate sorted(token['data'].items(), key=_attr_key): %s" % norm(it))
     tgt = lp.target
     ok_body = (isinstance(tgt, ast.Tuple) and len(tgt.elts) == 2 and all(isinstance(e, ast.Name) for e in tgt.elts) and
                [norm(s) for s in lp.body] == ["attrs[%s] = %s" % (tgt.elts[0].id, tgt.elts[1].id)] and not lp.orelse)
-    r.check("R18.2", ok_body, "inserts-under-own-key", "%s:%d" % (REL, lp.lineno),
-            "the rebuild loop does not insert each pair under its own key: %s" % [norm(s) for s in lp.body])
+    own = isinstance(tgt, ast.Tuple) and len(tgt.elts) == 2 and all(isinstance(e, ast.Name) for e in tgt.elts)
+    stores = [s for s in ast.walk(lp) if isinstance(s, ast.Assign) and isinstance(s.targets[0], ast.Subscript) and norm(s.targets[0].value) == "attrs"]
+    r.idiom("R18.2", ok_body, "inserts-under-own-key", "%s:%d" % (REL, lp.lineno),
+            "the rebuild loop does not insert each pair under its own key: %s" % [norm(s) for s in lp.body],
+            wrong=[(own and len(stores) == 1 and (norm(stores[0].targets[0].slice) != tgt.elts[0].id or norm(stores[0].value) != tgt.elts[1].id
+                                                  or stores[0] is not lp.body[0]), None)])
     pre = [s for s in ast.walk(f.node) if isinstance(s, ast.Assign) and norm(s.targets[0]) == "attrs"]
-    r.check("R18.2", len(pre) == 1 and norm(pre[0].value) in ("OrderedDict()", "{}", "dict()"), "fresh-ordered-mapping",
+    r.idiom("R18.2", len(pre) == 1 and norm(pre[0].value) in ("OrderedDict()", "{}", "dict()"), "fresh-ordered-mapping",
             f.where, "the new attribute mapping is not a fresh insertion-ordered mapping")
     # R18.3
     k = repo.func(REL, "_attr_key")
@@ -85,9 +89,11 @@ def run(ctx):
     a = k.params()[0]
     good = len(rets) == 1 and norm(rets[0].value) in ("(%s[0][0] or '', %s[0][1])" % (a, a),
                                                       "('' if %s[0][0] is None else %s[0][0], %s[0][1])" % (a, a, a))
-    r.check("R18.3", good, "key-shape", k.where,
-            "the sort key is `%s`; it must map a None namespace to '' and then use the local name" % (norm(rets[0].value) if rets else "?"),
-            detail={"key": norm(rets[0].value) if rets else None})
+    keytxt = norm(rets[0].value) if len(rets) == 1 else ""
+    simple = len(rets) == 1 and len(k.node.body) <= 2 and not any(isinstance(n, ast.Assign) for n in k.node.body)
+    r.idiom("R18.3", good, "key-shape", k.where,
+            "the sort key is `%s`; it must map a None namespace to '' and then use the local name" % (keytxt or "?"),
+            wrong=[(simple and not good, None)], detail={"key": keytxt})
     calls = [norm(n) for n in ast.walk(k.node) if isinstance(n, ast.Call)]
     r.check("R18.3", not calls, "key-pure", k.where, "the sort key calls %s: it must depend on the attribute key only" % calls)
 
